@@ -148,3 +148,101 @@ Theorem C07_f_compare_Rcompare : forall a b,
   = f_compare a b.
 Proof. exact FlocqLink.f_compare_Rcompare. Qed.
 Print Assumptions C07_f_compare_Rcompare.
+
+(* ---------- range splitting and enumeration half (Numeric/ProofsSplit1.v, ProofsSplit2.v,
+   ProofsSplit.v) ----------
+   All statements are for ALL int64 bounds and precision step 4 (the literal the searcher passes).
+   Vocabulary defined in ProofsSplit1.v:
+     vr_count v  := (vr_hi v - vr_lo v + 1) / 2 ^ vr_shift v       (number of prefixes spanned)
+     vr_wf v     := 0 <= vr_shift v <= 63 /\ vr_lo v mod 2 ^ vr_shift v = 0 /\
+                    (vr_hi v + 1) mod 2 ^ vr_shift v = 0 /\
+                    min_int64 <= vr_lo v /\ vr_lo v <= vr_hi v /\ vr_hi v <= max_int64
+     sum_count l := sum of vr_count over l
+   and in ProofsSplit.v:
+     ok_bits b   := in_u64 b = true /\ is_nan b = false /\ is_neg_zero b = false
+     ok_opt o    := match o with Some b => ok_bits b | None => True end *)
+From Verif Require Import Numeric.ProofsSplit1 Numeric.ProofsSplit2 Numeric.ProofsSplit.
+
+Theorem C07_split_fuel_ok : forall lo hi,
+  in_int64 lo = true -> in_int64 hi = true -> lo <= hi ->
+  exists vrs, split_range lo hi 4 = Some vrs.
+Proof. exact split_fuel_ok. Qed.
+Print Assumptions C07_split_fuel_ok.
+
+Theorem C07_split_rounds_le_16 : forall lo hi,
+  in_int64 lo = true -> in_int64 hi = true -> lo <= hi ->
+  exists vrs, split_loop 16 lo hi 0 4 = Some vrs.
+Proof. exact split_rounds_le_16. Qed.
+Print Assumptions C07_split_rounds_le_16.
+
+Theorem C07_split_cover : forall lo hi vrs,
+  in_int64 lo = true -> in_int64 hi = true -> split_range lo hi 4 = Some vrs ->
+  forall x, lo <= x <= hi <-> exists vr, In vr vrs /\ vr_lo vr <= x <= vr_hi vr.
+Proof. exact split_cover. Qed.
+Print Assumptions C07_split_cover.
+
+Theorem C07_split_disjoint : forall lo hi vrs,
+  in_int64 lo = true -> in_int64 hi = true -> split_range lo hi 4 = Some vrs ->
+  forall i j vi vj, i <> j -> nth_error vrs i = Some vi -> nth_error vrs j = Some vj ->
+    vr_hi vi < vr_lo vj \/ vr_hi vj < vr_lo vi.
+Proof. exact split_disjoint. Qed.
+Print Assumptions C07_split_disjoint.
+
+Theorem C07_split_ranges_wf : forall lo hi vrs,
+  in_int64 lo = true -> in_int64 hi = true -> split_range lo hi 4 = Some vrs ->
+  forall vr, In vr vrs ->
+    (exists k, 0 <= k <= 15 /\ vr_shift vr = 4 * k) /\
+    vr_lo vr mod 2 ^ vr_shift vr = 0 /\ (vr_hi vr + 1) mod 2 ^ vr_shift vr = 0 /\
+    Z.lor (vr_hi vr) (2 ^ vr_shift vr - 1) = vr_hi vr /\
+    lo <= vr_lo vr /\ vr_lo vr <= vr_hi vr /\ vr_hi vr <= hi /\
+    1 <= vr_count vr <= 30.
+Proof. exact split_ranges_wf. Qed.
+Print Assumptions C07_split_ranges_wf.
+
+Theorem C07_range_span : forall lo hi vrs,
+  in_int64 lo = true -> in_int64 hi = true -> lo <= hi -> split_range lo hi 4 = Some vrs ->
+  exists init last, vrs = init ++ [last] /\
+    Forall (fun v => vr_count v <= 15) init /\ vr_count last <= 30 /\
+    sum_count vrs <= 466 /\ (length vrs <= 31)%nat.
+Proof. exact range_span. Qed.
+Print Assumptions C07_range_span.
+
+Theorem C07_enum7_total : forall v, vr_wf v -> vr_count v <= 64 ->
+  exists tr l, vrange_terms v = Some tr /\ enum7 64 tr = Some l.
+Proof. exact enum7_total. Qed.
+Print Assumptions C07_enum7_total.
+
+Theorem C07_enum7_spec : forall v tr l, vr_wf v -> vr_count v <= 64 ->
+  vrange_terms v = Some tr -> enum7 64 tr = Some l ->
+  map Some l = map (fun j => encode (vr_lo v + Z.of_nat j * 2 ^ vr_shift v) (vr_shift v))
+                   (seq 0 (Z.to_nat (vr_count v))) /\
+  Z.of_nat (length l) = vr_count v.
+Proof. exact enum7_spec. Qed.
+Print Assumptions C07_enum7_spec.
+
+Theorem C07_range_candidates_total : forall lo hi,
+  in_int64 lo = true -> in_int64 hi = true ->
+  exists cands, range_candidates lo hi 4 = Some cands /\ (length cands <= 466)%nat.
+Proof. exact range_candidates_total. Qed.
+Print Assumptions C07_range_candidates_total.
+
+Theorem C07_candidates_match_iff : forall lo hi x cands,
+  in_int64 lo = true -> in_int64 hi = true -> in_int64 x = true ->
+  range_candidates lo hi 4 = Some cands ->
+  (existsb (fun c => mem_bytes c (index_terms 4 x)) cands = true <-> lo <= x <= hi).
+Proof. exact candidates_match_iff. Qed.
+Print Assumptions C07_candidates_match_iff.
+
+Theorem C07_numeric_range_correct : forall mn mx imin imax v,
+  ok_opt mn -> ok_opt mx -> ok_bits v ->
+  range_matches_model 4 mn mx imin imax v = Some (range_matches_spec mn mx imin imax v).
+Proof. exact numeric_range_correct. Qed.
+Print Assumptions C07_numeric_range_correct.
+
+(* the step bound of the legacy base-256 termRange.Enumerate is refuted on the faithful model *)
+Theorem C07_enum256_refuted :
+  exists lo hi vrs v tr, in_int64 lo = true /\ in_int64 hi = true /\ lo <= hi /\
+    split_range lo hi 4 = Some vrs /\ In v vrs /\ vrange_terms v = Some tr /\
+    2 ^ 56 < enum256_steps tr /\ enum7_steps tr = 2.
+Proof. exact enum256_refuted. Qed.
+Print Assumptions C07_enum256_refuted.
